@@ -29,6 +29,7 @@ func runC16(r *vf.Run) {
 	r.Assume("modification = change of file content, size or mode (atime is not considered)", "strace sees every syscall of the traced process tree")
 	c16Clobber(r)
 	c16NoDescriptors(r)
+	c16WriterLifecycles(r)
 	c16FaultSweep(r)
 	c16ReadOnly(r)
 	c16Strace(r)
